@@ -810,11 +810,17 @@ pub mod verif {
 
     pub use super::{
         config::{MAX_BATCH_SIZE, MAX_MESSAGE_SIZE},
-        schema::bitswap::{Block as SchemaBlock, BlockPresence as SchemaBlockPresence, Message as SchemaMessage},
+        schema::bitswap::{
+            Block as SchemaBlock, BlockPresence as SchemaBlockPresence, Message as SchemaMessage,
+        },
     };
 
     /// What the inbound path does with one payload block.
-    pub fn block_to_response(peer: &PeerId, prefix: Vec<u8>, data: Vec<u8>) -> Option<ResponseType> {
+    pub fn block_to_response(
+        peer: &PeerId,
+        prefix: Vec<u8>,
+        data: Vec<u8>,
+    ) -> Option<ResponseType> {
         super::block_to_response(peer, schema::bitswap::Block { prefix, data })
     }
 
